@@ -359,7 +359,10 @@ impl Segments {
                     self.segments.push_back(s);
                     PopExpiredProbe::Empty
                 }
-                (true, true) if s.retransmit_count() >= max_probe_retransmissions => {
+                // A probe that was never transmitted can't have been lost.
+                (true, true)
+                    if s.send_count() > 0 && s.retransmit_count() >= max_probe_retransmissions =>
+                {
                     // The probe's bytes go back to the unsegmented part of the TX buffer.
                     self.offset -= s.payload_size as u64;
                     self.len_bytes -= s.payload_size;
